@@ -74,7 +74,9 @@ def main(tier, seed, replay=None, scale=1.0):
             ids = [case["cid"]]
         else:
             n = min(UNIVERSE, max(50, int(BUDGET[tier] * scale)))
-            if n >= UNIVERSE:
+            if os.environ.get("VERIF_CIDS"):        # development aid: a file with one case id per line
+                ids = sorted(set(int(x) for x in open(os.environ["VERIF_CIDS"]).read().split()))
+            elif n >= UNIVERSE:
                 ids = list(range(UNIVERSE))
             else:
                 rng = run.rng_for(seed, "C01-ids")
